@@ -53,7 +53,11 @@ type totalityTable struct {
 
 func loadTotality() *totalityTable {
 	var t totalityTable
-	for _, name := range []string{"totality_table.json", "totality_extra.json"} {
+	names := []string{"totality_table.json", "totality_extra.json"}
+	if archOverride == "386" {
+		names = append(names, "totality_386.json")
+	}
+	for _, name := range names {
 		b, err := os.ReadFile(filepath.Join(verifDir(), "tools", name))
 		if err != nil {
 			fatalf("cannot read %s: %v", name, err)
@@ -114,7 +118,15 @@ func checkC04(r *Report) {
 	}
 	reviewed := map[string]*totalityFn{}
 	for i := range tab.Functions {
-		reviewed[tab.Functions[i].Fn] = &tab.Functions[i]
+		e := &tab.Functions[i]
+		if old := reviewed[e.Fn]; old != nil {
+			// an architecture-specific supplement adds to the function's budget
+			old.Sites += e.Sites
+			old.Exprs = append(old.Exprs, e.Exprs...)
+			old.Requires = append(old.Requires, e.Requires...)
+			continue
+		}
+		reviewed[e.Fn] = e
 	}
 	pms := map[*ast.File]parentMap{}
 	factsAt := func(n ast.Node) map[string]bool {
